@@ -229,16 +229,22 @@ def _worker(a):
 
 def run(chk, tier, scale=1.0):
     b = prun.build_daemon("c09-" + tier)
+    # a quarter of the histories run on an unsanitized build: there a memory error does not abort the daemon but
+    # shows as whatever it writes to the channel, which is what this property is about
+    import build as buildmod
+    bplain = buildmod.build_daemon(buildmod.fresh_dir("c09p-" + tier), "plain")
     n = int((320 if tier == "quick" else 6000) * scale)
     jobs = []
     allpat = list(range(256))
     for i in range(n):
         rng = random.Random("c09/%d/%d" % (chk.seed, i))
         rng.shuffle(allpat)
-        jobs.append(dict(build=b, seed=rng.randrange(1 << 30), logs=i % len(LOGS), reloads=(i % 4 == 0), patterns=list(allpat[:32])))
+        jobs.append(dict(build=(bplain if i % 4 == 1 else b), seed=rng.randrange(1 << 30), logs=i % len(LOGS), reloads=(i % 4 == 0), patterns=list(allpat[:32])))
     for k, r in enumerate(vcommon.pmap(_worker, jobs, chunksize=2)):
         chk.add_case(r["hash"], r["nontrivial"])
         chk.merge_counts(r["stats"])
+        if jobs[k]["build"] is bplain:
+            chk.count("histories_on_unsanitized_build")
         for w in r["inconc"]:
             chk.inconc(w)
         for (rule, sig, text, wit) in r["viol"]:
